@@ -2018,3 +2018,17 @@ M("C07-benign-default-arm-one-chain", "C07", F_EX, _DEF, """    default:
       out << " )";
     }
 """, benign=True)
+
+# ---- R06.15 (S8-C06: trailing return type looked up from the wrong scope)
+M("C06-trailing-return-scope-under-current-scope", "C06", F_Y,
+  "    CPPScope *scope = new CPPScope($1->get_scope(current_scope, global_scope),\n                                   $1->_ident->_names.back(), V_private);\n",
+  "    CPPScope *scope = new CPPScope(current_scope, $1->_ident->_names.back(),\n                                   V_private);\n",
+  expect="R06.15|yyparse|function-scope#")
+M("C06-parameter-scope-under-global-scope", "C06", F_Y,
+  "  CPPScope *scope = new CPPScope($1->get_scope(current_scope, global_scope),\n                                 CPPNameComponent(\"\"), V_private);\n",
+  "  CPPScope *scope = new CPPScope(global_scope,\n                                 CPPNameComponent(\"\"), V_private);\n",
+  expect="R06.15|yyparse|function-scope#")
+M("C06-benign-trailing-return-scope-parent-in-a-local", "C06", F_Y,
+  "    CPPScope *scope = new CPPScope($1->get_scope(current_scope, global_scope),\n                                   $1->_ident->_names.back(), V_private);\n",
+  "    CPPScope *scope = new CPPScope($1->get_scope(current_scope, global_scope),\n                                   $1->_ident->_names.back(),\n                                   V_private);\n",
+  benign=True)
